@@ -11,15 +11,29 @@ var stdAssumptions = []string{
 // expectedReach lists, per property, the reach counters that a healthy run of
 // the check should see above zero; those at zero are reported as blind spots.
 var expectedReach = map[string][]string{
+	"C16": {"outcome.garbler-error", "outcome.session-stalled", "outcome.garbler-correct-despite-corruption"},
+	"C02": {"pipe.short-reads", "pipe.writer-blocked", "pipe.one-byte-reads", "ot.CO", "ot.COT", "ot.COT-malicious", "ot.RSA-1024", "circuit.multi-output"},
 	"C19": {"net.data-before-accept", "net.backlog>1", "mutex.contended", "cond.wakeup"},
 	"C11": {"pipe.short-reads", "pipe.writer-blocked", "pipe.reader-blocked", "pipe.one-byte-reads"},
 }
 
 var props = map[string]propCfg{
+	"C16": {
+		Quick: 25 * time.Second, Thorough: 10 * time.Minute, Level: "fault_enumeration", MemLimitMB: 6144,
+		Rule:        "one case = one clean reference session plus 4..11 corrupted sessions of the same circuit, inputs and randomness (whole-circuit and streaming mode), each with a corruption plan drawn from the fault stream: 1..4 faults, direction G->E or E->G, byte offset (head-, tail- and uniformly-biased) within the clean transcript, single-bit/0xff/random-mask flip or 2..41-byte burst; the garbler's outcome must be error, stall/abort or the truth-table result; non-trivial = at least one fault fired; distinct = distinct SHA-256 over the event logs of all sessions of the case",
+		Components:  map[string]string{"circuit.Garbler/Evaluator, compiler Stream/StreamEvaluator, p2p.Conn, ot.*": "real code", "transport + corruption": "simulated pipe with fault plan", "reference": "harness truth-table evaluator"},
+		Assumptions: append([]string{"workers run under an address-space limit; a worker killed by it (a corrupted count made the code under test allocate gigabytes) counts as an aborted session for that one trial"}, stdAssumptions...),
+	},
+	"C02": {
+		Quick: 25 * time.Second, Thorough: 10 * time.Minute, Level: "exploration",
+		Rule:        "one case = one seeded two-party session circuit.Garbler vs circuit.Evaluator over two p2p.Conn on a simulated pipe: generated circuit (1..24-bit inputs, 1..4 outputs of width 1..17, 0..400 gates of all five kinds, fan-out, same wire twice, INV-only/XNOR-heavy/OR-heavy shapes), inputs (zero/ones/single-bit/random), OT in {CO, COT, COT-malicious, RSA-1024, RSA-2048(thorough)}, per-direction capacity (0=rendezvous..unbounded), fragmentation, latency and the schedule of the 4 tasks from the tape; oracle = harness truth-table evaluator; non-trivial = more than 2 task switches; distinct = distinct SHA-256 of the event log (decisions, transport events, payload bytes)",
+		Components:  map[string]string{"circuit.Garbler/Evaluator/Garble/Eval, p2p.Conn, ot.CO/COT/RSA/IKNP": "real code", "transport": "simulated pipe", "crypto/rand": "seeded AES-CTR DRBG per party", "reference": "harness truth-table evaluator (gen.Eval)"},
+		Assumptions: stdAssumptions,
+	},
 	"C19": {
 		Quick: 20 * time.Second, Thorough: 8 * time.Minute, Level: "exploration",
-		Rule: "one case = one seeded run of p2p.Create/Join/Connect for N in 2..6 parties and k in 1..4 connections per pair on the simulated network: start delays before Join and before Connect, dial latency, socket capacity, fragmentation and every interleaving decision of the parties' main, accept and connection-writer tasks at lock, condition, channel and socket operations come from the tape; non-trivial = more than 4 task switches; distinct = distinct SHA-256 of the run's event log",
-		Components: map[string]string{"p2p.Network, p2p.Peer, p2p.Conn": "real code (rewritten go/chan/sync/net)", "TCP listen/dial/accept": "simulated (simnet: backlog, dial succeeds before accept)", "scheduler, mutex, cond": "simulator"},
+		Rule:        "one case = one seeded run of p2p.Create/Join/Connect for N in 2..6 parties and k in 1..4 connections per pair on the simulated network: start delays before Join and before Connect, dial latency, socket capacity, fragmentation and every interleaving decision of the parties' main, accept and connection-writer tasks at lock, condition, channel and socket operations come from the tape; non-trivial = more than 4 task switches; distinct = distinct SHA-256 of the run's event log",
+		Components:  map[string]string{"p2p.Network, p2p.Peer, p2p.Conn": "real code (rewritten go/chan/sync/net)", "TCP listen/dial/accept": "simulated (simnet: backlog, dial succeeds before accept)", "scheduler, mutex, cond": "simulator"},
 		Assumptions: stdAssumptions,
 	},
 	"C11": {
